@@ -132,6 +132,71 @@ MODEL = {
 
 PARAMS_MODEL = {'Fq': 'Sm9.paramsQ', 'Fr': 'Sm9.paramsR'}
 
+# ---- lib.rs wrappers (`impl Fr`, `impl Fq`, FromStr, TryFrom, From<..> for [u8; 32]) --------------------------------
+# For each wrapper: (a) `<name>_equiv` against the composition of limb-model functions, and (b) `<name>_refines`
+# against the value-level API model (Sm9/Model/Api.lean, Prim.lean) through the abstraction
+# "stored Montgomery value x < p denotes ofMont x = x·R⁻¹ mod p" (hand lemmas: Sm9/Proofs/LibScalar.lean).
+# {PP} parameter set, {F} modulus, {N} value type, {om} abstraction, {ok} P.Ok, {fr}/{fq}: Api name prefix.
+LIB_COMMON = ['from_slice', 'zero', 'one', 'pow', 'inverse', 'is_zero', 'interpret', 'to_slice', 'new_mul_factor', 'add_inplace', 'sub_inplace',
+              'mul_inplace', 'neg_inplace', 'from_str', 'try_from', 'into_bytes']
+LIB_EXPECTED = {'Fr': LIB_COMMON + ['from_hash', 'random', 'set_bit', 'into_bytes_ref'], 'Fq': LIB_COMMON + ['is_even', 'to_big_endian', 'sqrt', 'into_u256']}
+
+
+def lib_entry(w, fn):
+    PP, F, N, ok, pre = ('Sm9.paramsR', 'Consts.FR', 'Sm9.Fr', 'paramsR_ok', 'fr') if w == 'Fr' else ('Sm9.paramsQ', 'Consts.FQ', 'Sm9.Fq', 'paramsQ_ok', 'fq')
+    om = N + '.ofMont'
+    A = f'Lib{w}_{fn}_equiv'
+    into_lt_W = lambda x: f'(lt_trans (Sm9.Fp.into_lt {ok} {x} (by assumption)) {ok}.lt)'
+    binop = {'add_inplace': ('add', '+'), 'sub_inplace': ('sub', '-'), 'mul_inplace': ('mul', '*')}
+    T = {
+      'zero': dict(rhs='Sm9.Fp.zero', b=f'{om} {{g}} = 0 ∧ {{g}} < {F}', bp=f'rw [{A}]; exact ⟨{N}.ofMont_zero, {N}.zero_canon⟩'),
+      'one': dict(rhs=f'Sm9.Fp.one {PP}', b=f'{om} {{g}} = 1 ∧ {{g}} < {F}', bp=f'rw [{A}]; exact ⟨{N}.ofMont_one, {N}.one_canon⟩'),
+      'pow': dict(rhs=f'Sm9.Fp.pow {PP} {{0}} {{1}}', hyps=[f'Sm9.Fp.into_u256 {PP} {{1}} < W256'], bh=[f'{{0}} < {F}', f'{{1}} < {F}'],
+                  b=f'{{g}} {{0}} {{1}} < {F} ∧ {om} ({{g}} {{0}} {{1}}) = ({om} {{0}}).pow ({om} {{1}}).val',
+                  bp=f'rw [{A} _ _ {into_lt_W("{1}")}, {N}.ofMont_val {{1}} h1]; exact {N}.pow_refines {{0}} {{1}} h0'),
+      'inverse': dict(rhs=f'Sm9.Fp.inverse {PP} {{0}}', bh=[f'{{0}} < {F}'],
+                  b=f'∃ o, {{g}} {{0}} = some o ∧ o.map {om} = ({om} {{0}}).inverse ∧ ∀ y, o = some y → y < {F}',
+                  bp=f'rw [{A}]; exact {N}.inverse_refines {{0}} h0'),
+      'is_zero': dict(rhs='Sm9.Fp.is_zero {0}', bh=[f'{{0}} < {F}'], b=f'{{g}} {{0}} = ({om} {{0}}).is_zero', bp=f'rw [{A}]; exact {N}.is_zero_refines {{0}} h0'),
+      'interpret': dict(rhs=f'Sm9.Fp.interpret {PP} {{0}}', bh=['List.length {0} = 64'],
+                  b=f'∃ y, {{g}} {{0}} = Outcome.ok y ∧ y < {F} ∧ {om} y = {N}.ofNat (beVal {{0}})', bp=f'rw [{A}]; exact {N}.interpret_refines {{0}} h0'),
+      'to_slice': dict(rhs=f'(Outcome.ok (Sm9.Fp.to_slice {PP} {{0}}))', bh=[f'{{0}} < {F}'],
+                  b=f'{{g}} {{0}} = Outcome.ok (Sm9.Api.{pre}ToSlice ({om} {{0}}))', bp=f'rw [{A}, {N}.to_slice_refines {{0}} h0]'),
+      'new_mul_factor': dict(rhs=f'Sm9.Fp.new_mul_factor {PP} {{0}}', bh=['{0} < W256'],
+                  b=f'{{g}} {{0}} < {F} ∧ {om} ({{g}} {{0}}) = {N}.ofNat {{0}}', bp=f'rw [{A}]; exact {N}.new_mul_factor_refines {{0}} h0'),
+      'neg_inplace': dict(rhs=f'Sm9.Fp.neg {PP} {{0}}', bh=[f'{{0}} < {F}'],
+                  b=f'{{g}} {{0}} < {F} ∧ {om} ({{g}} {{0}}) = - {om} {{0}}', bp=f'rw [{A}]; exact {N}.neg_refines {{0}} h0'),
+      'from_str': dict(rhs=f'Sm9.Fp.from_str {PP} {{0}}',
+                  b=f'({{g}} {{0}}).map {om} = Sm9.Api.{pre}FromStr {{0}} ∧ ∀ y, {{g}} {{0}} = some y → y < {F}', bp=f'rw [{A}]; exact {N}.from_str_refines {{0}}'),
+      'from_slice': dict(rhs=f'Sm9.Fp.lib_from_slice {PP} {{0}}',
+                  b=f'∃ o, {{g}} {{0}} = Outcome.ok o ∧ o.map {om} = Sm9.Api.{pre}FromSlice {{0}} ∧ ∀ y, o = some y → y < {F}', bp=f'rw [{A}]; exact {N}.lib_from_slice_refines {{0}}'),
+    }
+    T['try_from'] = T['from_slice']
+    T['into_bytes'] = T['to_slice']
+    T['into_bytes_ref'] = T['to_slice']
+    for k, (m, op) in binop.items():
+        T[k] = dict(rhs=f'Sm9.Fp.{m} {PP} {{0}} {{1}}', bh=[f'{{0}} < {F}', f'{{1}} < {F}'],
+                    b=f'{{g}} {{0}} {{1}} < {F} ∧ {om} ({{g}} {{0}} {{1}}) = {om} {{0}} {op} {om} {{1}}', bp=f'rw [{A}]; exact {N}.{m}_refines {{0}} {{1}} h0 h1')
+    if w == 'Fr':
+        T['from_hash'] = dict(rhs='Sm9.FrL.from_hash {0}',
+                  b=f'∃ o, {{g}} {{0}} = Outcome.ok o ∧ o.map {om} = Sm9.Api.frFromHash {{0}} ∧ ∀ y, o = some y → y < {F}', bp=f'rw [{A}]; exact Sm9.Fr.from_hash_refines {{0}}')
+        T['random'] = dict(rhs=f'(List.drop 8 {{0}}, Sm9.Fp.random {PP} {{0}})',
+                  b=f'({{g}} {{0}}).2 = Sm9.Api.frRandomRaw {{0}} ∧ ({{g}} {{0}}).2 < {F} ∧ ({{g}} {{0}}).1 = List.drop 8 {{0}}',
+                  bp=f'rw [{A}]; exact ⟨(Sm9.Fr.random_refines {{0}}).2, (Sm9.Fr.random_refines {{0}}).1, rfl⟩')
+        T['set_bit'] = dict(rhs=f'(Sm9.Fp.set_bit {PP} {{0}} {{1}} {{2}})', hyps=[f'Sm9.Fp.into_u256 {PP} {{0}} < W256'], bh=[f'{{0}} < {F}'],
+                  b=f'{{g}} {{0}} {{1}} {{2}} < {F} ∧ {om} ({{g}} {{0}} {{1}} {{2}}) = Sm9.Api.frSetBit ({om} {{0}}) {{1}} {{2}}',
+                  bp=f'rw [{A} _ _ _ {into_lt_W("{0}")}]; exact Sm9.Fr.set_bit_refines {{0}} {{1}} {{2}} h0')
+    else:
+        T['into_u256'] = dict(rhs=f'Sm9.Fp.into_u256 {PP} {{0}}', bh=[f'{{0}} < {F}'], b=f'{{g}} {{0}} = ({om} {{0}}).val', bp=f'rw [{A}]; exact {N}.into_u256_refines {{0}} h0')
+        T['is_even'] = dict(rhs=f'Sm9.Big.is_even (Sm9.Fp.into_u256 {PP} {{0}})', bh=[f'{{0}} < {F}'], b=f'{{g}} {{0}} = ({om} {{0}}).is_even', bp=f'rw [{A}]; exact {N}.is_even_refines {{0}} h0')
+        T['sqrt'] = dict(rhs='Sm9.FqL.sqrt {0}', bh=[f'{{0}} < {F}'],
+                  b=f'({{g}} {{0}}).map {om} = ({om} {{0}}).sqrt ∧ ∀ y, {{g}} {{0}} = some y → y < {F}', bp=f'rw [{A}]; exact {N}.sqrt_refines {{0}} h0')
+        T['to_big_endian'] = dict(rhs=f'Sm9.U256.to_big_endian (Sm9.Fp.into_u256 {PP} {{0}}) (List.length {{1}})', lhs='Option.map (fun _ => ({g} {0} {1}).1) ({g} {0} {1}).2', bh=[f'{{0}} < {F}'],
+                  b=f'Option.map (fun _ => ({{g}} {{0}} {{1}}).1) ({{g}} {{0}} {{1}}).2 = Sm9.Api.fqToBigEndian ({om} {{0}}) (List.length {{1}})',
+                  bp=f'rw [{A}]; exact {N}.to_big_endian_refines {{0}} h0 _')
+    return T.get(fn)
+
+
 # auxiliary definitions: ('fuel' | 'body', statement, proof).
 #   'fuel': one per `while` loop; the theorem is stated as `(fuel : Nat) : ∀ params, ...`
 #   'body': one per dynamic `for` loop; the parameters of the body definition are the theorem's binders
@@ -248,6 +313,12 @@ def main(gen_dir):
             L.append(f"theorem {nm} {binders} : {stmt.format(*ps, **fmt)} := by {proof.format(*ps, **fmt)}")
             names.append(nm)
             eqs = eqs + [nm]
+        lib = None
+        if key.startswith('LibFr.') or key.startswith('LibFq.'):
+            lib = lib_entry(key[3:5], key.split('.', 1)[1])
+            if lib is not None:
+                MODEL[key] = M(lib['rhs'], lib.get('hyps', []), tac='limb_lib', **({'lhs': lib['lhs']} if 'lhs' in lib else {}))
+                eqs = eqs + param_eqs + ['Sm9.FqL.P', 'Sm9.FrL.P']
         if key not in MODEL or key in OMIT:
             L.append(f'-- {key}: translated, but no model counterpart is configured in tools/gen_limb_equiv.py (NO THEOREM)')
             unproved.append(key)
@@ -283,6 +354,14 @@ def main(gen_dir):
         L.append(f"theorem {nm} {binders} {hy} : {lhs} = {rhs} := by {proof}")
         names.append(nm)
         proved.add(key)
+        if lib is not None:
+            # (b) value-level refinement
+            bh = ' '.join(f'(h{i} : {h.format(*ps)})' for i, h in enumerate(lib.get('bh', [])))
+            stmt = lib['b'].format(*ps, g=g)
+            bproof = lib['bp'].format(*ps, g=g)
+            rn = key.replace('.', '_') + '_refines'
+            L.append(f"theorem {rn} {binders} {bh} : {stmt} := by {bproof}")
+            names.append(rn)
     L.append('')
     for key, status in sorted(rep.items()):
         if status != 'translated':
@@ -293,7 +372,11 @@ def main(gen_dir):
     if not os.path.exists(path) or open(path).read() != text:
         open(path, 'w').write(text)
     translated = {f['key'] for f in meta['fns']}
-    missing = sorted(k for k in MODEL if k not in translated)
+    expected = set(MODEL)
+    for w in ('Fr', 'Fq'):
+        for fn in LIB_EXPECTED[w]:
+            expected.add(f'Lib{w}.{fn}')
+    missing = sorted(k for k in expected if k not in translated)
     print(json.dumps({'limb_equiv_theorems': len(names), 'limb_no_theorem': unproved, 'limb_model_functions_not_translated': missing}))
 
 
